@@ -13,7 +13,11 @@ def decode(string):
   return unsafe_decode(string)
 
 def validate_encoded(string):
-  if not re.match(r"^[!-)+-<>-~][!-~]*[+-](,[!-)+-<>-~][!-~]*[+-])*\Z", string):
+  # (segment names may contain commas and signs: a string is a list of names
+  #  and orientations exactly when it is one name, of any length, and an
+  #  orientation; the pattern which spells the list out, NameOrient[,...],
+  #  accepts the same strings but takes exponential time to refuse one)
+  if not re.match(r"^[!-)+-<>-~][!-~]*[+-]\Z", string):
     raise gfapy.FormatError(
       "{} is not a valid list of GFA1 segment names ".format(repr(string))+
       "and orientations\n"+
@@ -23,6 +27,9 @@ def validate_encoded(string):
       "NameOrient[,NameOrient...])")
 
 def validate_decoded(iterable):
+  if not isinstance(iterable, list) or not iterable:
+    raise gfapy.TypeError(
+      "{} is not a list of at least one element".format(repr(iterable)))
   for elem in iterable:
     elem = gfapy.OrientedLine(elem)
     elem.validate()
